@@ -16,8 +16,11 @@ pub struct Template {
     pub min_spec: SpecId,
     /// nonce offset relative to "pre-state nonce + earlier txs of this sender in the block"
     pub nonce_skew: i64,
-    /// does this transaction consume a nonce of its sender when valid? (create/call: yes)
-    pub build: Arc<dyn Fn(u64) -> TxEnv + Send + Sync>,
+    /// accounts other than the sender whose nonce this transaction bumps when valid (EIP-7702
+    /// authorities), so that later templates can compute authorisation nonces
+    pub bumps: Vec<Address>,
+    /// (sender nonce, nonce-of-any-account) -> transaction
+    pub build: Arc<dyn Fn(u64, &dyn Fn(Address) -> u64) -> TxEnv + Send + Sync>,
 }
 
 pub fn tpl(
@@ -26,7 +29,26 @@ pub fn tpl(
     tags: &'static [&'static str],
     build: impl Fn(u64) -> TxEnv + Send + Sync + 'static,
 ) -> Template {
-    Template { label, sender, tags, min_spec: SpecId::FRONTIER, nonce_skew: 0, build: Arc::new(build) }
+    Template {
+        label,
+        sender,
+        tags,
+        min_spec: SpecId::FRONTIER,
+        nonce_skew: 0,
+        bumps: vec![],
+        build: Arc::new(move |n, _| build(n)),
+    }
+}
+
+/// Template whose transaction depends on the current nonce of other accounts (authorisations).
+pub fn tpl_auth(
+    label: &'static str,
+    sender: Address,
+    tags: &'static [&'static str],
+    bumps: Vec<Address>,
+    build: impl Fn(u64, &dyn Fn(Address) -> u64) -> TxEnv + Send + Sync + 'static,
+) -> Template {
+    Template { label, sender, tags, min_spec: SpecId::PRAGUE, nonce_skew: 0, bumps, build: Arc::new(build) }
 }
 
 impl Template {
@@ -92,7 +114,16 @@ pub fn build_case(
         let k = used.entry(tp.sender).or_insert(0);
         let nonce = base.wrapping_add(*k).wrapping_add_signed(tp.nonce_skew);
         *k += 1;
-        let mut tx = (tp.build)(nonce);
+        let mut tx = {
+            let used_ref = &used;
+            let nonce_of = move |a: Address| -> u64 {
+                db.accounts.get(&a).map_or(0, |x| x.info.nonce) + used_ref.get(&a).copied().unwrap_or(0)
+            };
+            (tp.build)(nonce, &nonce_of)
+        };
+        for b in &tp.bumps {
+            *used.entry(*b).or_insert(0) += 1;
+        }
         if !spec.is_enabled_in(SpecId::LONDON) && tx.tx_type == 2 {
             return None;
         }
